@@ -174,6 +174,21 @@ static void emitDITypes(Module &M, raw_ostream &os) {
   bool first = true;
   os << "\"ditypes\":{";
   for (DIType *t : F.types()) {
+    if (auto *dt = dyn_cast<DIDerivedType>(t)) {
+      if (dt->getTag() == dwarf::DW_TAG_typedef && !dt->getName().empty()) {
+        DIType *b = dt->getBaseType();
+        while (b && isa<DIDerivedType>(b) && cast<DIDerivedType>(b)->getTag() == dwarf::DW_TAG_typedef) b = cast<DIDerivedType>(b)->getBaseType();
+        auto *at = dyn_cast_or_null<DICompositeType>(b);
+        if (at && at->getTag() == dwarf::DW_TAG_array_type) {
+          std::string nm = "typedef:" + dt->getName().str();
+          if (seen.insert(nm).second) {
+            if (!first) os << ","; first = false;
+            os << q(nm) << ":{\"tag\":\"array_typedef\",\"size_bits\":" << at->getSizeInBits() << ",\"members\":[]}";
+          }
+        }
+      }
+      continue;
+    }
     auto *ct = dyn_cast<DICompositeType>(t);
     if (!ct) continue;
     if (ct->getTag() != dwarf::DW_TAG_structure_type && ct->getTag() != dwarf::DW_TAG_enumeration_type) continue;
